@@ -278,6 +278,17 @@ def _(n, T):
             F("count", "int", [P("k", "val", "int")], cls=c, static=True, fid=c + "#count")]
 
 
+@shape("class_out", langs=("c++",), wraps=("c", "fortran", "python"), doc="docs/classes.rst + pointers.yaml: const member functions with out / inout arguments in every position")
+def _(n, T):
+    c = n + "_C"
+    return [F(c, "void", [], cls=c, ctor=True, fid=c + "#ctor0"),
+            F("~", "void", [], cls=c, dtor=True, fid=c + "#dtor", dtor_name="delete"),
+            F("fetch", "int", [P("a", "val", "int"), P("o", "ptr_out", "int")], cls=c, const=True, fid=c + "#fetch"),
+            F("probe", "int", [P("o", "ptr_out", "int"), P("a", "val", "int")], cls=c, const=True, fid=c + "#probe"),
+            F("scale", "double", [P("io", "ref_inout", "double", explicit=True), P("a", "val", "double")], cls=c, const=True, fid=c + "#scale"),
+            F("both", "int", [P("o", "ptr_out", "int"), P("a", "val", "int"), P("q", "ptr_out", "double")], cls=c, fid=c + "#both")]
+
+
 def instances(lang, wraps=None, need=None):
     out = []
     for s in SHAPES.values():
